@@ -26,6 +26,7 @@ fn main() {
     let mut out = common::Out::new(&a[4], &a[5]);
     match prop {
         "C05" => c05::run(seed, tier, &mut out),
+        "C05P" => c05::run_pos(seed, tier, &mut out),
         "C07" => c07::run(seed, tier, &mut out),
         "C10" => c10::run(seed, tier, &mut out),
         "C08" => c08::run(seed, tier, &mut out),
